@@ -113,6 +113,9 @@ def run(ctx):
     metadata_flow_sender(ctx, ctx.rule("C01.R4s", SENDER_FLOW_TEXT, "ARG/DEP"))
     decoding_params_provenance(ctx, ctx.rule("C01.R5", DECODING_TEXT, "WWF + value provenance"))
     from . import c07 as _c07
+    once_rule(ctx, ctx.rule("C01.R7", ONCE_TEXT, "E3 decision table over calls"))
+    from . import c03
+    c03.byte_accounting(ctx, ctx.rule("C01.R6", c03.BYTES_TEXT, "WWF + value shape + DOM"))
     metadata_flow_receiver(ctx, ctx.rule("C01.R4r", "receiver: each metadata field of ObjectReceiver assigned in attach_fdt "
                                                     "derives from the FDT File entry, and create_meta hands each one to the writer", "ARG/DEP"))
 
@@ -234,6 +237,48 @@ def metadata_flow_receiver(ctx, rule):
                 rule.violation(key, "ObjectMetadata.%s does not read ObjectReceiver.%s (sources: %s)" % (
                     mf, of, ", ".join(sorted(srcs))[:200]), loc(s.sp))
     rule.floor(len(RECV_FIELDS) + len(META_FIELDS), "receiver metadata fields")
+
+
+ONCE_TEXT = ("Receiver::push_obj: a packet of an object that is in the completed registry never reaches create_obj / ObjectReceiver::push, except "
+             "that with object_receive_once == false the first symbol (SBN 0, ESI 0) removes the registry entry and restarts the object; an object in "
+             "the error registry restarts only on SBN 0 / ESI 0 (over all truth values of the five conditions)")
+
+
+def once_rule(ctx, rule):
+    from .. import polarity
+    prog = ctx.prog
+    f = prog.fn("receiver::receiver::Receiver::push_obj")
+    ctx.analysed(f.path)
+    t = polarity.Table(f, name_sign={"sbn": r"^payload_id(~\d+)?\.sbn$", "esi": r"^payload_id(~\d+)?\.esi$"},
+                       name_bool={"completed": r"contains_key\(&self\.objects_completed", "once": r"^self\.config\.object_receive_once$",
+                                  "errored": r"contains\(&self\.objects_error"},
+                       call_filter=r"ObjectReceiver::push$|Receiver::create_obj$|BTreeMap.*::remove$|BTreeSet.*::remove$|HashMap.*::remove$|HashSet.*::remove$")
+    missing = [l for l in ("sbn", "esi", "completed", "once", "errored") if l not in t.labels_found()]
+    for l in missing:
+        rule.violation("push_obj tests %s" % l, "Receiver::push_obj no longer tests `%s` (conditions found: %s ; %s)" % (
+            l, [polarity.show_key(k) for k in t.seen_sign][:6], list(t.seen_bool)[:6]), loc(f.sp))
+    if missing:
+        return
+    n = 0
+    for sc in t.scenarios():
+        first = sc["sbn"] == 0 and sc["esi"] == 0
+        may_push = (not sc["completed"] or (not sc["once"] and first)) and (not sc["errored"] or first)
+        drop_completed = sc["completed"] and not sc["once"] and first
+        res = t.results(sc)
+        pushes = [calls for _, calls in res if any(c.endswith("ObjectReceiver::push") or c.endswith("Receiver::create_obj") for c in calls)]
+        rem_c = [calls for _, calls in res if any(re.search(r"BTreeMap.*::remove$|HashMap.*::remove$", c) for c in calls)]
+        key = "push_obj [%s]" % ", ".join("%s=%s" % (k, {-1: "<0", 0: "=0", 1: ">0"}.get(v, v) if not isinstance(v, bool) else v) for k, v in sorted(sc.items()))
+        n += 1
+        if not may_push and pushes:
+            rule.violation(key, "a packet reaches the object receiver although the object is %s and this is not an allowed restart: calls %s" % (
+                "already completed" if sc["completed"] else "in the error registry", sorted(set(pushes))[0]), loc(f.sp))
+        elif may_push and not pushes:
+            rule.violation(key, "no path hands the packet to the object receiver in a scenario where it must be processed", loc(f.sp))
+        elif bool(rem_c) != drop_completed and not (rem_c and not drop_completed and not sc["completed"]):
+            rule.violation(key, "objects_completed.remove %s in this scenario" % ("happens" if rem_c else "does not happen"), loc(f.sp))
+        else:
+            rule.ok(key, "push %s, registry entry %s" % ("reachable" if may_push else "unreachable", "removed" if drop_completed else "kept"), loc(f.sp))
+    rule.floor(72, "scenarios of push_obj")
 
 
 DECODING_TEXT = ("the fields that decide how received bytes are decoded are written only from their wire / FDT source: ObjectReceiver.cenc from pkt.cenc "
